@@ -265,8 +265,34 @@ fn synthetic_minimizer_shape_of(rng: &mut Rng, force: Option<usize>) -> ScannerC
     let lit = |c: char| Re::Lit(c, LitStyle::Verbatim);
     let word = |s: &str| Re::Cat(s.chars().map(lit).collect());
     let ab = || Re::Class(Class { neg: false, set: CSet::Union(vec![Item::Range('a', 'b')]) });
-    let kind = force.unwrap_or_else(|| rng.below(13));
+    let kind = force.unwrap_or_else(|| rng.below(15));
     match kind {
+        // wide states: x(a|b|...|q)z | y(a|b|...|p)z - two states with 17-40 transitions each that
+        // differ in one or two of them only (a signature that is cut off, hashed or compared in
+        // part does not see the difference)
+        13 | 14 => {
+            let pool: Vec<char> = "abcdefghijklmnopqrstuvwABCDEFGHIJKLMNOPQRSTUVW".chars().collect();
+            let n = rng.range(17, 40);
+            let letters: Vec<char> = pool[..n].to_vec();
+            let tail = ["z", "zz", "1"][rng.below(3)];
+            let mk = |ls: &[char]| -> Re {
+                let alts: Vec<Re> = ls.iter().map(|l| lit(*l)).collect();
+                Re::Group(GroupKind::NonCapture, Box::new(Re::Alt(alts)))
+            };
+            let mut fewer = letters.clone();
+            for _ in 0..rng.range(1, 2) {
+                let k = rng.below(fewer.len());
+                fewer.remove(k);
+            }
+            let (first, second) = if rng.chance(1, 2) { (letters.clone(), fewer) } else { (fewer, letters.clone()) };
+            let bx = Re::Cat(vec![lit('x'), mk(&first), word(tail)]);
+            let by = Re::Cat(vec![lit('y'), mk(&second), word(tail)]);
+            if rng.chance(1, 2) {
+                ScannerCfg::single(vec![RefPattern { re: Re::Alt(vec![bx, by]), tt: 0, la: None }])
+            } else {
+                ScannerCfg::single(vec![RefPattern { re: bx, tt: 4, la: None }, RefPattern { re: by, tt: 4, la: None }])
+            }
+        }
         // redistribution: x(..)|y(..) where both brackets use the same second letters and the same
         // tails, but assign the tails to the letters differently - the states after x and after y
         // have the same classes and reach the same groups, only the association differs
@@ -551,7 +577,7 @@ pub fn run_lang(which: Which, tier: Tier) -> i32 {
     // place where the refinement is asked the subtle questions)
     let nfin = ctx.scale(12_000, 600_000);
     res.merge(run_cases(&ctx, 5, nfin, |rng, _i, st| {
-        let kind = *rng.pick(&[6usize, 6, 9, 11, 11, 1]);
+        let kind = *rng.pick(&[6usize, 6, 9, 11, 11, 1, 13]);
         let cfg = synthetic_minimizer_shape_of(rng, Some(kind));
         st.count("finite_language_programs");
         st.nontrivial(hash_of(&cfg));
